@@ -47,16 +47,45 @@ var run *ev.Run
 // ---------------------------------------------------------------- the tape
 
 type tape struct {
-	data  []byte
-	pos   int
-	reads int  // number of Read calls
-	want  int  // total number of bytes requested
-	over  bool // a Read went past the end of data (zeros were served)
-	maxRd int  // largest single request
+	data      []byte
+	pos       int
+	reads     int  // number of Read calls
+	want      int  // total number of bytes requested
+	over      bool // a Read went past the end of data (zeros were served)
+	maxRd     int  // largest single request
+	zeroReads int  // reads served entirely after the tape ran out
 }
+
+// guarded runs f and reports whether the tape raised livelock.
+func guarded(f func()) (hung bool) {
+	defer func() {
+		if r := recover(); r != nil {
+			if _, ok := r.(livelock); ok {
+				hung = true
+				return
+			}
+			panic(r)
+		}
+	}()
+	f()
+	return false
+}
+
+// livelock is raised by the tape when one library call keeps reading after the tape has run
+// out: the continuation is all zeros, and the value 0 is below every n, so a sampler that
+// still asks for more after maxZeroReads further reads will never return on this source.
+type livelock struct{}
+
+const maxZeroReads = 64
 
 func (t *tape) Read(b []byte) {
 	t.reads++
+	if t.over {
+		t.zeroReads++
+		if t.zeroReads > maxZeroReads {
+			panic(livelock{})
+		}
+	}
 	t.want += len(b)
 	if len(b) > t.maxRd {
 		t.maxRd = len(b)
@@ -100,7 +129,7 @@ func newRig() *rig {
 
 func (r *rig) load(data []byte) {
 	t := r.tp
-	t.data, t.pos, t.reads, t.want, t.over = data, 0, 0, 0, false
+	t.data, t.pos, t.reads, t.want, t.over, t.zeroReads = data, 0, 0, 0, false, 0
 }
 
 type obs struct {
@@ -109,10 +138,19 @@ type obs struct {
 }
 
 // uintn runs UintN(n) on tape data||00.. and returns (result, number of Read calls).
+// A call that never returns on the zero continuation is reported as reads = -1.
 func (r *rig) uintn(n uint64, data []byte) obs {
 	r.load(data)
-	v := r.p.UintN(n)
+	var v uint64
+	if guarded(func() { v = r.p.UintN(n) }) {
+		return obs{0, -1}
+	}
 	return obs{v, r.tp.reads}
+}
+
+func reportHang(n uint64, data []byte, prior []string) {
+	viol("uintn:no-return-on-zero-continuation", fmt.Sprintf("UintN(%d) on tape %x||00.. (prior calls %v) still asks for bytes after %d all-zero attempts: 0 < n is never accepted, the call cannot return", n, data, prior, maxZeroReads),
+		replay{Kind: "uintn", N: n, Tape: ev.Hex(data), Prior: prior})
 }
 
 func byteLen(x uint64) int { return (bits.Len64(x) + 7) / 8 }
@@ -170,6 +208,37 @@ func newScratch() *scratch {
 	return &scratch{make([]uint32, 1<<16), make([]uint8, 1<<16), make([]uint16, 1<<16)}
 }
 
+// sweepLoop is the hot loop of sweepN: every first-attempt string x, continuation zeros.
+func sweepLoop(rg *rig, n uint64, size, total int, data []byte, buf *[2]byte, counts []uint32, acc []uint8, res []uint16, accepted *uint64, obs0 *obs) {
+	tp := rg.tp
+	for x := 0; x < total; x++ {
+		buf[0], buf[1] = byte(x), byte(x>>8)
+		tp.data, tp.pos, tp.reads, tp.want, tp.over, tp.zeroReads = data, 0, 0, 0, false, 0
+		r := rg.p.UintN(n)
+		if x == 0 {
+			*obs0 = obs{r, tp.reads}
+		}
+		if r >= n {
+			viol("uintn:out-of-range", fmt.Sprintf("UintN(%d) = %d on tape %x", n, r, data),
+				replay{Kind: "uintn", N: n, Tape: ev.Hex(data), Got: fmt.Sprint(r)})
+			acc[x] = 2
+			continue
+		}
+		if tp.reads == 1 {
+			counts[r]++
+			acc[x], res[x] = 1, uint16(r)
+			*accepted++
+		} else {
+			acc[x] = 0
+			// rejected: the continuation is all zeros, it must behave like the all-zero attempt alone
+			if r != obs0.res || tp.reads != obs0.reads+1 {
+				viol("uintn:rejection-continuation", fmt.Sprintf("UintN(%d) on tape %x||00..: result %d after %d reads; the all-zero attempt alone gives %d after %d reads", n, data, r, tp.reads, obs0.res, obs0.reads),
+					replay{Kind: "uintn", N: n, Tape: ev.Hex(data), Got: fmt.Sprintf("%d after %d reads", r, tp.reads), Want: fmt.Sprintf("%d after %d reads", obs0.res, obs0.reads+1)})
+			}
+		}
+	}
+}
+
 // sweepN: all first-attempt strings for n with n-1 < 2^16.
 func sweepN(n uint64, sc *scratch) {
 	rg := newRig()
@@ -186,28 +255,11 @@ func sweepN(n uint64, sc *scratch) {
 	data := buf[:size]
 	accepted := uint64(0)
 	tp.maxRd = 0
-	for x := 0; x < total; x++ {
-		buf[0], buf[1] = byte(x), byte(x>>8)
-		tp.data, tp.pos, tp.reads, tp.want, tp.over = data, 0, 0, 0, false
-		r := rg.p.UintN(n)
-		if r >= n {
-			viol("uintn:out-of-range", fmt.Sprintf("UintN(%d) = %d on tape %x", n, r, data),
-				replay{Kind: "uintn", N: n, Tape: ev.Hex(data), Got: fmt.Sprint(r)})
-			acc[x] = 2
-			continue
-		}
-		if tp.reads == 1 {
-			counts[r]++
-			acc[x], res[x] = 1, uint16(r)
-			accepted++
-		} else {
-			acc[x] = 0
-			// rejected: the continuation is all zeros, a fresh attempt on zeros gives 0 at once
-			if r != 0 || tp.reads != 2 {
-				viol("uintn:rejection-continuation", fmt.Sprintf("UintN(%d) on tape %x||00..: result %d after %d reads; a second attempt on zero bytes must return 0", n, data, r, tp.reads),
-					replay{Kind: "uintn", N: n, Tape: ev.Hex(data), Got: fmt.Sprintf("%d after %d reads", r, tp.reads), Want: "0 after 2 reads"})
-			}
-		}
+	var obs0 obs // the all-zero attempt alone
+	hung := guarded(func() { sweepLoop(rg, n, size, total, data, &buf, counts, acc, res, &accepted, &obs0) })
+	if hung {
+		reportHang(n, append([]byte{}, tp.data...), nil)
+		return
 	}
 	evals.Add(int64(total))
 	if tp.maxRd != size {
@@ -238,7 +290,7 @@ func sweepN(n uint64, sc *scratch) {
 		case 1:
 			return obs{uint64(res[y]), 1}
 		case 0:
-			return obs{0, 2}
+			return obs{obs0.res, obs0.reads + 1}
 		}
 		return obs{^uint64(0), -1} // y alone was already out of range: skip
 	}
@@ -281,6 +333,10 @@ func sweepN(n uint64, sc *scratch) {
 			}
 		}
 		got := rg.uintn(n, t)
+		if got.reads < 0 {
+			reportHang(n, append([]byte{}, t...), nil)
+			return
+		}
 		want := expect(y)
 		if want.reads < 0 {
 			return
@@ -342,6 +398,10 @@ func bigN(n uint64) {
 		for _, lo := range lowList {
 			x := top<<lowBits | lo
 			o := rg.uintn(n, le(x, size))
+			if o.reads < 0 {
+				reportHang(n, le(x, size), nil)
+				return
+			}
 			recs = append(recs, rec{x, o})
 			if o.res >= n {
 				viol("uintn:out-of-range", fmt.Sprintf("UintN(%d) = %d on tape %x", n, o.res, le(x, size)),
@@ -422,6 +482,10 @@ func bigN(n uint64) {
 		got := rg.uintn(n, t)
 		want := obs{y.o.res, y.o.reads + len(pre)}
 		cnt++
+		if got.reads < 0 {
+			reportHang(n, t, nil)
+			return
+		}
 		if got != want {
 			viol("uintn:rejection-continuation", fmt.Sprintf("UintN(%d) on tape %x (%d rejected attempts first): got %d after %d reads, the last attempt alone gives %d after %d", n, t, len(pre), got.res, got.reads, y.o.res, y.o.reads),
 				replay{Kind: "uintn", N: n, Tape: ev.Hex(t), Got: fmt.Sprintf("%d after %d reads", got.res, got.reads), Want: fmt.Sprintf("%d after %d reads", want.res, want.reads)})
@@ -478,11 +542,23 @@ func stalePairs(ns []uint64) {
 		for _, n2 := range ns {
 			for _, y := range cands(n2) {
 				fresh := newRig().uintn(n2, y)
+				if fresh.reads < 0 {
+					reportHang(n2, y, nil)
+					continue
+				}
 				for _, f := range firsts {
 					rg := newRig()
 					first := rg.uintn(n1, f)
 					got := rg.uintn(n2, y)
 					cnt++
+					if first.reads < 0 {
+						reportHang(n1, f, nil)
+						continue
+					}
+					if got.reads < 0 {
+						reportHang(n2, y, []string{fmt.Sprintf("UintN(%d) tape %x", n1, f)})
+						continue
+					}
 					if got != fresh {
 						viol("uintn:stale-buffer-dependence", fmt.Sprintf("UintN(%d) on tape %x gives %d (%d reads) on a fresh generator but %d (%d reads) right after UintN(%d) on tape %x (=%d)", n2, y, fresh.res, fresh.reads, got.res, got.reads, n1, f, first.res),
 							replay{Kind: "uintn", N: n2, Tape: ev.Hex(y), Prior: []string{fmt.Sprintf("UintN(%d) tape %x", n1, f)}, Got: fmt.Sprint(got.res), Want: fmt.Sprint(fresh.res)})
@@ -633,16 +709,21 @@ func (w *permWorker) call() (uint32, string) {
 
 func (w *permWorker) dfs(prefix []byte) {
 	w.rg.load(prefix)
-	out, bad := w.call()
+	var out uint32
+	var bad string
+	if guarded(func() { out, bad = w.call() }) {
+		bad = fmt.Sprintf("no-return-on-zero-continuation: still reading after %d all-zero attempts", maxZeroReads)
+		w.rg = newRig()
+		w.rg.load(prefix)
+		w.rg.tp.over = true // treat as an inner node no further: do not count, do not extend
+		w.trunc++
+		w.runs++
+		w.report(prefix, bad)
+		return
+	}
 	w.runs++
 	if bad != "" {
-		cls := bad[:strings.Index(bad, ":")]
-		key := strings.ToLower(w.job.fn) + ":" + cls
-		if !w.badRep[key] {
-			w.badRep[key] = true
-			viol(key, fmt.Sprintf("%v on tape %x||00..: %s", w.job, prefix, bad),
-				replay{Kind: "perm", Fn: w.job.fn, NInt: w.job.n, M: w.job.m, Tape: ev.Hex(prefix), Note: bad})
-		}
+		w.report(prefix, bad)
 	}
 	if !w.rg.tp.over {
 		d := len(prefix) - w.L0
@@ -657,6 +738,16 @@ func (w *permWorker) dfs(prefix []byte) {
 	}
 	for b := 0; b < w.A; b++ {
 		w.dfs(append(prefix, byte(b)))
+	}
+}
+
+func (w *permWorker) report(prefix []byte, bad string) {
+	cls := bad[:strings.Index(bad, ":")]
+	key := strings.ToLower(w.job.fn) + ":" + cls
+	if !w.badRep[key] {
+		w.badRep[key] = true
+		viol(key, fmt.Sprintf("%v on tape %x||00..: %s", w.job, prefix, bad),
+			replay{Kind: "perm", Fn: w.job.fn, NInt: w.job.n, M: w.job.m, Tape: ev.Hex(prefix), Note: bad})
 	}
 }
 
@@ -854,6 +945,7 @@ func argsPart() {
 					replay{Kind: "args", Fn: fn, NInt: n, M: m})
 			}
 		}()
+		rg.load(nil) // fresh all-zero source for every call
 		judge(fn, n, m, f(), wantErr)
 	}
 	for _, n := range vals {
@@ -953,13 +1045,19 @@ func specialNs() []uint64 {
 func main() {
 	run = ev.Start("C15", "exploration")
 	run.Budget(50*time.Second, 9*time.Minute)
-	// the tape really is the generator's only source
+	// the tape really is the generator's only source (probe independent of how UintN samples)
 	{
 		rg := newRig()
-		o := rg.uintn(7, []byte{0xff, 0x05})
-		o2 := rg.uintn(1<<16, []byte{0x34, 0x12})
-		if o != (obs{5, 2}) || o2 != (obs{0x1234, 1}) {
-			run.Fatal("tape injection probe failed: UintN(7) on ff05 -> %v, UintN(65536) on 3412 -> %v", o, o2)
+		rg.load([]byte{0xC1, 0x5A, 0x07})
+		b := make([]byte, 3)
+		rg.p.Read(b)
+		if b[0] != 0xC1 || b[1] != 0x5A || b[2] != 0x07 || rg.tp.reads != 1 || rg.tp.over {
+			run.Fatal("tape injection probe failed: Read gave %x after %d reads", b, rg.tp.reads)
+		}
+		rg.load(nil)
+		hung := guarded(func() { rg.p.UintN(1 << 40) })
+		if !hung && (rg.tp.reads == 0 || !rg.tp.over) {
+			run.Fatal("tape injection probe failed: UintN(2^40) did not read from the tape")
 		}
 	}
 	if run.Replay != "" {
